@@ -96,6 +96,20 @@ func stressRun(rep *vh.Report, sp *StressPlan, tw *traceWriter, seed int64, run 
 			world.RLock()
 		}
 	}
+	// the gate between a failed tryGet and the channel read in next(): hold the waiter there for a random moment so
+	// that adds / cool-down expiries fall into that window
+	jitter := rand.New(rand.NewSource(seed ^ 0x6a17))
+	var jmu sync.Mutex
+	prevPre := s.preLock
+	s.preLock = func(ev string) {
+		prevPre(ev)
+		if ev == "next.loop" {
+			jmu.Lock()
+			d := time.Duration(jitter.Intn(1500)) * time.Microsecond
+			jmu.Unlock()
+			time.Sleep(d)
+		}
+	}
 	s.postUnlock = func(ev string) {
 		if ev == "push.unlock" || ev == "releaseExpired.unlock" {
 			world.RUnlock()
